@@ -85,28 +85,77 @@ func BuildOverlay(harnessDir, repoDir string) (map[string][]byte, []string, erro
 	return ov, dirs, err
 }
 
+// Dropped lists harness files that were left out because they do not compile against the tree under
+// check (a harness that refers to an unexported name the tree no longer has says nothing about the
+// property: it is reported as inconclusive, the other harnesses run).
+var Dropped []string
+
 func Load(repoDir string, overlay map[string][]byte, patterns []string) (*Program, error) {
-	cfg := &packages.Config{
-		Mode:    packages.LoadAllSyntax,
-		Dir:     repoDir,
-		Overlay: overlay,
-		Env:     append(os.Environ(), "GOFLAGS=-mod=mod", "GOPROXY=off", "GOSUMDB=off", "GOTOOLCHAIN=local"),
-	}
-	initial, err := packages.Load(cfg, patterns...)
-	if err != nil {
-		return nil, err
-	}
-	nerr := 0
-	packages.Visit(initial, nil, func(p *packages.Package) {
-		for _, e := range p.Errors {
-			if strings.HasPrefix(p.PkgPath, fositePrefix) {
-				fmt.Fprintf(os.Stderr, "load error: %s: %v\n", p.PkgPath, e)
-				nerr++
-			}
+	var initial []*packages.Package
+	for round := 0; ; round++ {
+		cfg := &packages.Config{
+			Mode:    packages.LoadAllSyntax,
+			Dir:     repoDir,
+			Overlay: overlay,
+			Env:     append(os.Environ(), "GOFLAGS=-mod=mod", "GOPROXY=off", "GOSUMDB=off", "GOTOOLCHAIN=local"),
 		}
-	})
-	if nerr > 0 {
-		return nil, fmt.Errorf("%d package load errors", nerr)
+		var err error
+		initial, err = packages.Load(cfg, patterns...)
+		if err != nil {
+			return nil, err
+		}
+		nerr := 0
+		bad := map[string]string{} // overlay file -> first error
+		packages.Visit(initial, nil, func(p *packages.Package) {
+			for _, e := range p.Errors {
+				if !strings.HasPrefix(p.PkgPath, fositePrefix) {
+					continue
+				}
+				nerr++
+				file := e.Pos
+				if i := strings.Index(file, ".go:"); i >= 0 {
+					file = file[:i+3]
+				}
+				if _, isHarness := overlay[file]; isHarness {
+					if _, seen := bad[file]; !seen {
+						bad[file] = e.Msg
+					}
+				} else {
+					fmt.Fprintf(os.Stderr, "load error: %s: %v\n", p.PkgPath, e)
+				}
+			}
+		})
+		if nerr == 0 {
+			break
+		}
+		if len(bad) == 0 || round > 6 {
+			return nil, fmt.Errorf("%d package load errors", nerr)
+		}
+		for f, msg := range bad {
+			if strings.Contains(f, "/zz_verif_h/") {
+				// a harness package: leave the whole package out
+				dir := filepath.Dir(f)
+				for g := range overlay {
+					if filepath.Dir(g) == dir {
+						delete(overlay, g)
+					}
+				}
+				rel, _ := filepath.Rel(repoDir, dir)
+				var keep []string
+				for _, pat := range patterns {
+					if pat != "./"+filepath.ToSlash(rel) {
+						keep = append(keep, pat)
+					}
+				}
+				patterns = keep
+			} else {
+				delete(overlay, f)
+			}
+			Dropped = append(Dropped, fmt.Sprintf("%s: %s", strings.TrimPrefix(f, repoDir+"/"), msg))
+		}
+		if len(patterns) == 0 {
+			return nil, fmt.Errorf("no harness compiles against this tree")
+		}
 	}
 	prog, _ := ssautil.AllPackages(initial, ssa.InstantiateGenerics|ssa.SanityCheckFunctions&0)
 	p := &Program{Prog: prog, ByPath: map[string]*ssa.Package{}, Harnesses: map[string]*ssa.Function{}, RepoDir: repoDir, Overlay: overlay,
